@@ -1,0 +1,47 @@
+//go:build verif
+
+package cmap
+
+import "seehuhn.de/go/sfnt/glyph"
+
+// Verification hooks for property C09 (add-only, compiled with -tags verif).
+
+// VerifC09Segment is the exported view of a format-4 segment proposal.
+type VerifC09Segment struct {
+	First, Last, Delta uint16
+	UseValues          bool
+}
+
+// VerifC09AppendEdges exposes makeSegments.AppendEdges.
+func VerifC09AppendEdges(m map[uint16]glyph.ID, v uint32) []VerifC09Segment {
+	segs := makeSegments(m).AppendEdges(nil, v)
+	out := make([]VerifC09Segment, len(segs))
+	for i, s := range segs {
+		out[i] = VerifC09Segment{s.first, s.last, s.delta, s.useValues}
+	}
+	return out
+}
+
+// VerifC09EdgeLength and VerifC09EdgeTo expose the graph's cost and target.
+func VerifC09EdgeLength(m map[uint16]glyph.ID, s VerifC09Segment) int {
+	return makeSegments(m).Length(0, &segment{s.First, s.Last, s.Delta, s.UseValues})
+}
+
+func VerifC09EdgeTo(m map[uint16]glyph.ID, s VerifC09Segment) uint32 {
+	return makeSegments(m).To(0, &segment{s.First, s.Last, s.Delta, s.UseValues})
+}
+
+// VerifC09DecodeFormat exposes the unexported subtable decoders.
+func VerifC09DecodeFormat(format int, data []byte, code2rune func(int) rune) (Subtable, error) {
+	switch format {
+	case 0:
+		return decodeFormat0(data, code2rune)
+	case 4:
+		return decodeFormat4(data, code2rune)
+	case 6:
+		return decodeFormat6(data, code2rune)
+	case 12:
+		return decodeFormat12(data, code2rune)
+	}
+	return nil, errUnsupportedCmapFormat
+}
